@@ -251,6 +251,12 @@ func (w *world) rpc(label string, o op, target string, requested bool, fn func()
 		if o.Mode != "" {
 			sig["mode"] = o.Mode
 		}
+		if te := w.beforeDump.Found[target]; te != nil && len(te.HardLinkId) != 0 && tk == "hardlink" && te.HardLinkCounter <= 1 {
+			// the stored link counter says "last name" although other names exist (left behind by an
+			// earlier request that a store fault stopped half-way, or by a listed C21 finding): a
+			// client that follows the mount's rule IsDeleteData = counter<=1 is misled
+			sig["counter"] = "undercounts"
+		}
 		if errText != "" {
 			sig["outcome"] = "refused"
 			if o.Fault != "" {
